@@ -52,6 +52,10 @@ std::pair<bool, int> TetrisLegalizer::attemptPlacement(int cell, int y) const {
 }
 
 void TetrisLegalizer::placeCell(int cell) {
+  if (rows_.empty()) {
+    // No space left at all: the cell stays unplaced
+    return;
+  }
   int targetX = cellTargetX_[cell];
   int targetY = cellTargetY_[cell];
   int bestX = 0;
